@@ -51,19 +51,20 @@ type MapDesc struct {
 }
 
 type Desc struct {
-	Name      string
-	Mode      string
-	Exit      []string
-	ExitOnSub []string // sequence keys that only a sub-handler delivers (no main-handler symbol)
-	Octave    int
-	Semitone  int
-	Channel   int // 1..16
-	Velocity  int
-	DefMap    string
-	Actions   map[string]string // key name -> action
-	Mappings  []MapDesc
-	cfg       *config.Config // parsed once by the real parser (read-only afterwards)
-	Extra     []string       // further keys in the alphabet that are mapped to nothing
+	Name        string
+	Mode        string
+	Exit        []string
+	FreeActions bool     // actions may be pressed on top of a held up/down pair (swallowed, but tracked as held)
+	ExitOnSub   []string // sequence keys that only a sub-handler delivers (no main-handler symbol)
+	Octave      int
+	Semitone    int
+	Channel     int // 1..16
+	Velocity    int
+	DefMap      string
+	Actions     map[string]string // key name -> action
+	Mappings    []MapDesc
+	cfg         *config.Config // parsed once by the real parser (read-only afterwards)
+	Extra       []string       // further keys in the alphabet that are mapped to nothing
 	// driver bounds (inclusive) on the reference state; an action press that would leave them is not offered
 	OctLo, OctHi, SemLo, SemHi int
 	ChSet                      []int // allowed 0-based channels (empty: all); 0 is always reachable through reset
